@@ -215,16 +215,16 @@ async fn forward(conn: Arc<Conn>, dir: Dir, pipe: Arc<Pipe>, mut rx: mpsc::Unbou
                 if conn.dead.load(Ordering::SeqCst) {
                     break;
                 }
-                let waker = {
+                let (pushed, waker) = {
                     let mut s = pipe.lock();
                     if s.reset || s.reader_gone {
-                        None
+                        (false, None)
                     } else {
                         s.readable.push_back(data);
-                        s.waker.take()
+                        (true, s.waker.take())
                     }
                 };
-                if let Some((idx, payload, raw)) = frame {
+                if let (true, Some((idx, payload, raw))) = (pushed, frame) {
                     tap(TapEvent::FrameIn {
                         conn: conn.info.id,
                         dialled: conn.info.dialled,
